@@ -135,18 +135,30 @@ def gen_def(rng, wmax, max_full):
         return r
     narrower = [x for x in same_carrier if x <= w]
     wider = [x for x in same_carrier if x > w]
+    specs = []
     if infallible and rng.random() < 0.8:
-        objs.append(reg("Rb", "beta", rng.choice(narrower), adef.mk_direct("En")))          # narrower or equal: unsafe getter
-        reuse.append("beta")
+        specs.append(("Rb", "beta", rng.choice(narrower), adef.mk_direct("En")))          # narrower or equal: unsafe getter
     if infallible and rng.random() < 0.4:
-        objs.append(reg("Rc", "gamma", w, adef.mk_direct("En")))                              # equal width
-        reuse.append("gamma")
+        specs.append(("Rc", "gamma", w, adef.mk_direct("En")))                              # equal width
     if has_fb and wider and rng.random() < 0.6:
-        objs.append(reg("Rd", "delta", rng.choice(wider), adef.mk_direct("En")))             # wider: plain Into (From exists)
-        reuse.append("delta")
+        specs.append(("Rd", "delta", rng.choice(wider), adef.mk_direct("En")))             # wider: plain Into (From exists)
     if rng.random() < 0.6:
-        objs.append(reg("Re", "eps", rng.choice(same_carrier if w > 12 or rng.random() < 0.7 else narrower), adef.mk_direct("En", use_try=True)))
-        reuse.append("eps")
+        specs.append(("Re", "eps", rng.choice(same_carrier if w > 12 or rng.random() < 0.7 else narrower), adef.mk_direct("En", use_try=True)))
+    if wider and rng.random() < 0.3:
+        specs.append(("Rf", "zeta", rng.choice(wider), adef.mk_direct("En", use_try=True)))  # wider with try: must stay a Result
+    if specs and rng.random() < 0.4:
+        # the reuses sit in the SAME field set as the defining field, after it (each field's method is its own choice)
+        rng.shuffle(specs)
+        pos = w
+        for _, fname, fw, conv in specs:
+            ra["fields"].append(adef.mk_field(fname, base, pos, pos + fw, conv=conv))
+            reuse.append(fname)
+            pos += fw
+        ra["size_bits"] = 8 * ((pos + 7) // 8)
+    else:
+        for name, fname, fw, conv in specs:
+            objs.append(reg(name, fname, fw, conv))
+            reuse.append(fname)
     if rng.random() < 0.3:                 # own enum nested in a block: collect order / `super::` resolution unchanged
         objs = [adef.mk_block("Blk", [objs[0]], address_offset=64)] + objs[1:]
     return {"config": adef.mk_config(register_address_type="u8", default_byte_order="LE"), "objects": objs}, \
@@ -237,7 +249,7 @@ def site_code(mod, d, meta, facts, sites):
         println!("BEGIN {sid}");
         for p in 0..{2 ** fw}u64 {{
             let mut bytes = [0u8; {nbytes}];
-            bytes.copy_from_slice(&p.to_le_bytes()[..{nbytes}]);
+            bytes.copy_from_slice(&((p as u128) << {f['start']}).to_le_bytes()[..{nbytes}]);
             let fs = {mod}::field_sets::{obj}::from(bytes);
             println!("{{}} {{}}", p, {show});
         }}
